@@ -281,12 +281,12 @@ def hash_row(label):
 
 # ------------------------------------------------------------------ generic filters
 
-def gen_objects(rng, n):
+def gen_objects(rng, n, plain=False):
     objs = []
     for i in range(n):
         kind = rng.choice(["VEVENT", "VEVENT", "VTODO", "VJOURNAL"])
         L = ["BEGIN:VCALENDAR", "VERSION:2.0", "PRODID:-//vf//c11//EN"]
-        vtz = rng.random() < 0.3
+        vtz = rng.random() < 0.3 and not plain
         if vtz:
             L += gen.VTIMEZONE_AMS
         L += ["BEGIN:" + kind, "UID:c11g-%d" % i, "DTSTAMP:20240101T000000Z"]
@@ -462,7 +462,7 @@ def check(tier, seed, t0):
     merged = common.merge(results)
     c = merged["counters"]
     k = 1 if not th else 8
-    guards = [("queries", c.get("queries", 0), 2500 * k), ("(object, query) judgements", c.get("judgements", 0), 90000 * k),
+    guards = [("queries", c.get("queries", 0), 2500 * (1 if not th else 4)), ("(object, query) judgements", c.get("judgements", 0), 90000 * (1 if not th else 4)),
               ("expected matches", c.get("expected_match", 0), 5000 * k), ("expected non-matches", c.get("expected_nomatch", 0), 5000 * k),
               ("calendar-data comparisons", c.get("calendar_data_compared", 0), 3000 * k)]
     rows = sorted({lab.rsplit("/", 1)[0] for (lab, _, _, _) in row_objects()})
